@@ -37,10 +37,14 @@
       hypothesis); `C07_resolve_import_no_crash_partial` is the converse under `OriginInjective`; the class is real
       (`C07_cex_resolve_two_names_one_origin`: `import pkg` + `import pkg.__init__`), a symlink is NOT in it
       (`C07_symlinked_module_has_ir`: the seen-set is keyed by `spec.origin` as spelled, not by the real file).
-    * K23: `C07_K23_no_base_crashes` / `C07_K23_base_iff` / `C07_cex_K23_*`: the `raise ValueError  # never` of the
-      relative-import visitors is reached exactly when no right-suffix of the current file's dotted path is an
-      importable module (target outside the search path, dotted directory); never for a file the locator found
-      under its own name (`C07_K23_located_file_has_base`).
+    * K23 / K24 / K25 (found in round 3, fixed upstream in c5833ef / 353eacf / bcdf6de; Tie A `tieA_fix_guards`):
+      `C07_K23_never_crashes` — a relative import in a file without a derivable module name ends `fatal`, never in an
+      exception, for every path and every verdict table of `module_exists`; `C07_K23_fatal_iff` / `C07_K23_base_iff` say
+      exactly when (no right-suffix of the dotted path is importable), `C07_K23_located_file_has_base` that it never
+      happens to a file the locator found; `C07_cex_K23_before_c5833ef` keeps the old crash as a counterexample.
+      `C07_main_tail_no_crash`: the whole tail of `main` — output stage under every `--stdout` value, then the cache
+      write under every state of the `-C` path (absent, writable, not writable) — ends `ok` or `fatal`;
+      `C07_cex_K25_before_bcdf6de` is the old escape of the `OSError`.
   Import following (several files), the cache and the CLI are otherwise covered by the raise-site table and by the
   CLI sweep of py/props/c07.py, not by a theorem. `ResultsSafe` is a condition on the FileIr the front-stage MODEL
   computes, not on the syntax of the module: that every name the analysers produce outside K22 starts with its
@@ -55,7 +59,7 @@ import RattrProofs.Lemmas.C07Results
 import RattrProofs.Lemmas.Results
 import RattrProofs.Props.C12
 import RattrModel.Stats
-import RattrModel.ImportWalk
+import RattrModel.RelBase
 import RattrProofs.Lemmas.C07Imports
 
 namespace Rattr.C07
@@ -70,10 +74,11 @@ theorem tieA_raise_sites : Generated.C07.raiseSites = classifiedRaiseSites.map (
 theorem tieA_assert_sites : Generated.C07.assertSites = classifiedAssertSites.map (·.site) := by
   decide +kernel
 
-/-- the crash rows that own a raise / assert site are known rows (K-rows of DESIGN §7 + K11; K23 = the two
-`raise ValueError  # never` of the relative-import visitors, reclassified as reachable in round 3). -/
+/-- the crash rows that own a raise / assert site are known rows (K-rows of DESIGN §7 + K11). K23 — the two
+`raise ValueError  # never` of the relative-import visitors, found reachable in round 3 — left this list with fix
+c5833ef: the statements are gone from the source (`tieA_raise_sites`) and the guard is `error.fatal` (`tieA_fix_guards`). -/
 theorem reachable_rows_listed :
-    reachableRows = ["K11", "K5", "K2", "K4", "K1", "K23", "K3", "K10", "K9", "K22", "K8"] := by
+    reachableRows = ["K11", "K5", "K2", "K4", "K1", "K3", "K10", "K9", "K22", "K8"] := by
   decide +kernel
 
 /-! ### Termination -/
@@ -721,25 +726,32 @@ theorem C07_symlinked_module_has_ir :
     importAllowed gLink (Spec.levelFlags 1) [1, 2] ⟨some 2, false⟩ = .found 2 ∧
     Spec.originsCanonicalB gLink realLink = false := by decide +kernel
 
-/-! ## Round 3 — (3) K23: the `raise ValueError  # never` of the relative-import visitors -/
+/-! ## Round 3 — (3) K23 / K25 after the upstream fixes c5833ef / 353eacf / bcdf6de -/
+
+/-- Tie A: the guards of the three fixes are in the source (both `if base is None:` bodies call `error.fatal`,
+`is_in_stdlib` catches `OSError` / `RuntimeError` of `place_module`, `write_cache_file` turns `OSError` into
+`error.fatal`, `main` writes the cache only through it). -/
+theorem tieA_fix_guards : Generated.C07.fixGuards = Crash.pinnedGuards := by decide +kernel
 
 section K23
-open Rattr.Locator Rattr.Walk
+open Rattr.Locator Rattr.RelBase
 
-/-- the visitor raises `ValueError` whenever the current file has no derivable module name … -/
-theorem C07_K23_no_base_crashes (P : Proj) (f : File) (c : Cur) (line level : Nat) (module : Option Dotted)
-    (names : List (Str × Option Str)) (st : Bool) (t : Tab) (s : Walk.St)
-    (h : deriveModuleNameFromPath P.env (curComps P c) = none) :
-    ∃ s', visitRel P f c line level module names st t s = .stop (.crash "ValueError") s' := by
-  unfold visitRel
-  rw [h]
-  exact ⟨_, rfl⟩
+/-- `deriveWith` is `derive_module_name_from_path` of the locator model when the verdicts are the model's own. -/
+theorem C07_K23_deriveWith_env (env : Locator.Env) (comps : List Str) :
+    deriveWith (moduleExists env) comps = deriveModuleNameFromPath env comps := rfl
 
-/-- … which is the case exactly when NO right-suffix of the file's dotted path is an importable module. -/
-theorem C07_K23_base_iff (env : Locator.Env) (comps : List Str) :
-    deriveModuleNameFromPath env comps = none ↔
-      ∀ k, k < (longestName comps).length → moduleExists env ((longestName comps).drop k) = false := by
-  unfold deriveModuleNameFromPath iterModuleNamesLeft
+/-- **K23, current code**: whatever the path of the current file and whatever `module_exists` answers, the guard of
+the relative-import visitors does not end in an exception — it hands over a base or ends `fatal`. -/
+theorem C07_K23_never_crashes (ex : Dotted → Bool) (comps : List Str) (e : String) :
+    relBase true ex comps ≠ .crash e := by
+  unfold relBase
+  cases deriveWith ex comps <;> simp
+
+/-- the file has no base exactly when NO right-suffix of its dotted path is an importable module … -/
+theorem C07_K23_base_iff (ex : Dotted → Bool) (comps : List Str) :
+    deriveWith ex comps = none ↔
+      ∀ k, k < (longestName comps).length → ex ((longestName comps).drop k) = false := by
+  unfold deriveWith iterModuleNamesLeft
   rw [List.find?_eq_none]
   constructor
   · intro h k hk
@@ -749,26 +761,79 @@ theorem C07_K23_base_iff (env : Locator.Env) (comps : List Str) :
     obtain ⟨k, hk, rfl⟩ := List.mem_map.mp hx
     simp [h k (List.mem_range.mp hk)]
 
+/-- … and that is exactly when the run ends with the `fatal:` diagnostic of c5833ef. -/
+theorem C07_K23_fatal_iff (ex : Dotted → Bool) (comps : List Str) :
+    relBase true ex comps = .fatal ↔
+      ∀ k, k < (longestName comps).length → ex ((longestName comps).drop k) = false := by
+  rw [← C07_K23_base_iff]
+  unfold relBase
+  cases deriveWith ex comps <;> simp
+
 /-- a file the locator finds under (a suffix of) its own dotted path has a base: every followed import (its
-`spec.origin` was produced by the locator from that very name) and every target inside the search path. -/
-theorem C07_K23_located_file_has_base (env : Locator.Env) (comps : List Str) (k : Nat)
-    (hk : k < (longestName comps).length) (hex : moduleExists env ((longestName comps).drop k) = true) :
-    deriveModuleNameFromPath env comps ≠ none := by
-  intro h
-  have := (C07_K23_base_iff env comps).mp h k hk
-  rw [this] at hex
-  cases hex
+`spec.origin` was produced by the locator from that very name) and every target inside the search path — the
+diagnostic can only concern the target. -/
+theorem C07_K23_located_file_has_base (ex : Dotted → Bool) (comps : List Str) (k : Nat)
+    (hk : k < (longestName comps).length) (hex : ex ((longestName comps).drop k) = true) :
+    ∃ b, relBase true ex comps = .base b := by
+  unfold relBase
+  cases h : deriveWith ex comps with
+  | some b => exact ⟨b, rfl⟩
+  | none =>
+    have := (C07_K23_base_iff ex comps).mp h k hk
+    rw [this] at hex
+    cases hex
 
 def k23Env : Locator.Env := { fs := [[[S "target.py"], [S "pkg", S "__init__.py"], [S "pkg", S "x.py"]]], stdlib := [] }
 
-/-- **K23 is real** (tests by evaluation, each replayed on the implementation): `rattr ../other/t.py`
-(`"...other.t.py"`), `rattr a.b/t.py`, `rattr pkg/script` (no suffix) have no base; `rattr pkg/x.py` has. -/
+/-- the round-3 witnesses on the current code (tests by evaluation, each replayed on the implementation): `rattr
+../other/t.py` (`"...other.t.py"`), `rattr a.b/t.py`, `rattr pkg/script` (no suffix) end `fatal`; `rattr pkg/x.py`
+has the base `pkg.x`. -/
 theorem C07_cex_K23_no_base :
-    deriveModuleNameFromPath k23Env [[], [], [], S "other", S "t", S "py"] = none ∧
-    deriveModuleNameFromPath k23Env [S "a", S "b", S "t", S "py"] = none ∧
-    deriveModuleNameFromPath k23Env [S "pkg", S "script"] = none ∧
-    deriveModuleNameFromPath k23Env [S "pkg", S "x", S "py"] = some [S "pkg", S "x"] := by decide +kernel
+    relBase true (moduleExists k23Env) [[], [], [], S "other", S "t", S "py"] = .fatal ∧
+    relBase true (moduleExists k23Env) [S "a", S "b", S "t", S "py"] = .fatal ∧
+    relBase true (moduleExists k23Env) [S "pkg", S "script"] = .fatal ∧
+    relBase true (moduleExists k23Env) [S "pkg", S "x", S "py"] = .base [S "pkg", S "x"] := by decide +kernel
+
+/-- **before c5833ef** the same three inputs ended in the `ValueError` marked "never here" (known finding K23 of
+round 3; kept so that the statement `C07_K23_never_crashes` is seen to be about the fix). -/
+theorem C07_cex_K23_before_c5833ef :
+    relBase false (moduleExists k23Env) [[], [], [], S "other", S "t", S "py"] = .crash "ValueError" ∧
+    relBase false (moduleExists k23Env) [S "a", S "b", S "t", S "py"] = .crash "ValueError" ∧
+    relBase false (moduleExists k23Env) [S "pkg", S "script"] = .crash "ValueError" := by decide +kernel
 
 end K23
+
+/-! ### K25: the cache write at the end of `main` -/
+
+/-- **the whole tail of `main`** (current code): every `--stdout` value × every run × every state of the `-C` path
+(no `-C`, writable, NOT writable) ends `ok` or `fatal` — never in an exception. -/
+theorem C07_main_tail_no_crash {ν ω : Type} (o : Stats.Output) (target : Str) (src : ν → Str)
+    (st : Imports.St ν ω) (cache : Option Bool) (e : String) :
+    Stats.mainTail true o (Stats.statsOf target src st) false cache ≠ .crash e := by
+  have h := C07_output_stage_no_crash o target src st
+  unfold Stats.outputOfRun at h
+  unfold Stats.mainTail
+  rw [h]
+  cases cache with
+  | none => simp
+  | some w => cases w <;> simp
+
+/-- … and it is `fatal` exactly when `-C` names a path that cannot be written. -/
+theorem C07_main_tail_fatal_iff {ν ω : Type} (o : Stats.Output) (target : Str) (src : ν → Str)
+    (st : Imports.St ν ω) (cache : Option Bool) :
+    Stats.mainTail true o (Stats.statsOf target src st) false cache = .fatal ↔ cache = some false := by
+  have h := C07_output_stage_no_crash o target src st
+  unfold Stats.outputOfRun at h
+  unfold Stats.mainTail
+  rw [h]
+  cases cache with
+  | none => simp
+  | some w => cases w <;> simp
+
+/-- **before bcdf6de** the `OSError` of `mkdir` / `write_text` escaped (known finding K25 of round 3). -/
+theorem C07_cex_K25_before_bcdf6de :
+    Stats.mainTail false .results ⟨2, 0, 0, 0⟩ false (some false) = .crash "OSError" ∧
+    Stats.mainTail true .results ⟨2, 0, 0, 0⟩ false (some false) = .fatal ∧
+    Stats.mainTail true .stats ⟨0, 0, 0, 0⟩ false (some false) = .crash "ValueError" := by decide +kernel
 
 end Rattr.C07
